@@ -144,6 +144,7 @@ class GenSource(object):
         self.queues = {}
         self.want_name = None
         self.last_mutated = None
+        self.life_same = {}
         # hammer runs (1 run in 16): one cheap callable asked a few hundred times, alternately with exactly the
         # same arguments and with fresh ones - counters, budgets, cache-size thresholds and evictions only show then
         self.hammer = None
@@ -369,11 +370,12 @@ class GenSource(object):
         rng = self.rng
         uses = [n for n in NAMES if n.startswith(kind_ + '.') and ENTRIES[n].kind in ('meth', 'op') and
                 ENTRIES[n].effect == 'pure' and not n.endswith('#bad')]
-        same = rng.choice(uses) if uses and rng.random() < 0.7 else None   # observe the SAME thing before/after
+        same = 'AUTO' if uses and rng.random() < 0.7 else None   # observe the SAME thing before/after (an observer
+        #                                                           that can be generated for this very object)
         pat = rng.choice([['use', 'change', 'use'], ['use', 'use', 'change', 'use', 'use'],
                           ['change', 'use'], ['use', 'change', 'change', 'use'], ['use'] * rng.randint(5, 9)])
         if len(pat) >= 5 and pat.count('use') == len(pat) and same is None and uses:
-            same = rng.choice(uses)     # the same question asked many times: counters, budgets, evictions
+            same = 'AUTO'               # the same question asked many times: counters, budgets, evictions
         steps = [('life', (w, kind_, hid, same if w == 'use' else None)) for w in pat]
         if front:
             q[0:0] = steps
@@ -387,6 +389,18 @@ class GenSource(object):
         names = [n for n in NAMES if n.startswith(kind + '.') and ENTRIES[n].kind in ('meth', 'op') and
                  (ENTRIES[n].effect == 'pure') == (what == 'use') and ENTRIES[n].effect != 'rebind' and
                  not n.endswith('#bad')]
+        if fixed == 'AUTO':
+            fixed = self.life_same.get(hid)
+            if fixed is None:
+                order = list(names)
+                self.rng.shuffle(order)
+                for nm in order[:12]:
+                    op = self._make_named(sim, task, depth, nm, (kind, hid))
+                    if op is not None:
+                        self.life_same[hid] = nm
+                        sim.count('probe.scripted_object_life_' + what)
+                        return op
+                return None
         if fixed is not None:
             names = [fixed] * 2 + names
         for k in range(5):
@@ -490,7 +504,8 @@ class GenSource(object):
             core = {'name': name, 'recv': recv, 'args': args, 'kwargs': kwargs}
             op = self._finish(core, task, depth)
             if e.kind == 'new' and name.split('.')[0] in LIFE_KINDS and not name.endswith('#bad') and \
-                    rng.random() < self.cfg['p_life']:
+                    rng.random() < self.cfg['p_life'] * (3.0 if name.split('.')[0] in ('Interpolation', 'CurveFitting',
+                                                                                      'Earth', 'Minor') else 1.0):
                 kind_ = name.split('.')[0]
                 hid = op['id'] * self.cfg['hstride']
                 self._push_life(q, kind_, hid)
